@@ -34,6 +34,7 @@ func cmdRegistry(args []string) int {
 	rlen := fs.Int("len", 8, "ops per random scenario")
 	shard := fs.Int("shard", 0, "shard index")
 	shards := fs.Int("shards", 1, "number of shards")
+	many := fs.String("many", "", "\"many contracts\" scenarios: comma separated numbers of ERC-20 precompiles to register")
 	scripted := fs.Bool("scripted", false, "also run the scripted scenarios (shard 0)")
 	fullEach := fs.Bool("full", false, "full probe matrix at every node")
 	out := fs.String("out", ".", "output directory")
@@ -50,9 +51,20 @@ func cmdRegistry(args []string) int {
 			cfgList = append(cfgList, n)
 		}
 	}
+	var manyList []int
+	for _, x := range strings.Split(*many, ",") {
+		if x != "" {
+			n, err := strconv.Atoi(x)
+			if err != nil || n < 1 || n > 150 {
+				fmt.Fprintln(os.Stderr, "bad -many")
+				return 2
+			}
+			manyList = append(manyList, n)
+		}
+	}
 	// the repository prints to stdout from the keeper; keep our stdout clean by writing results to files only
 	w := trace.Create(filepath.Join(*out, fmt.Sprintf("trace-%d.ndjson", *shard)))
-	st := misc.GenRegistry(w, misc.RegGenOpts{Seed: *seed, Depth: *depth, Random: *random, RandLen: *rlen, Shard: *shard, Shards: *shards, FullEach: *fullEach, Cfgs: cfgList, Scripted: *scripted})
+	st := misc.GenRegistry(w, misc.RegGenOpts{Seed: *seed, Depth: *depth, Random: *random, RandLen: *rlen, Shard: *shard, Shards: *shards, FullEach: *fullEach, Cfgs: cfgList, Scripted: *scripted, Many: manyList})
 	w.Close()
 	trace.WriteJSON(filepath.Join(*out, fmt.Sprintf("stats-%d.json", *shard)), st)
 	return 0
